@@ -33,7 +33,7 @@ def _job(kw):
 
 def record(jobs: list) -> list:
     """Run record_exposure for each kwargs dict, in the process pool."""
-    return check.pmap(_job, jobs, chunksize=16)
+    return check.pmap(_job, jobs, chunksize=4)
 
 
 FIELDS = {
@@ -205,12 +205,19 @@ def random_cfg(rng, max_models: int = 4, max_steps: int = 6, kinds=("obs", "set"
     uid = 0
     buckets_by_kind = {"set": ["photon", "pixel", "signal", "scene", "data"],
                        "add": ["photon", "charge", "pixel", "signal"], "padd": ["charge"]}
+    npadd = 0
     for k in range(10):
         models = []
         if rng.random() < 0.6:
             for _ in range(rng.randint(0, max_models)):
                 uid += 1
                 kind = rng.choice(kinds)
+                if kind == "padd":
+                    # the library recompiles its numba kernel on every read of a cluster frame:
+                    # keep cluster-adding models rare and their runs short
+                    npadd += 1
+                    if npadd > 1 or n > 5:
+                        kind = "add"
                 b = rng.choice(buckets_by_kind.get(kind, ["photon"]))
                 models.append({"name": f"m{uid}", "enabled": rng.random() < 0.7, "args": random_args(rng),
                                "kind": kind, "b": b, "base": rng.randint(1, 9) + 10 * (uid % 7),
